@@ -269,6 +269,84 @@ func probeReconfigured() string {
 	if got, want := show(g2.TokenizeBuffer("∀x ∁")), fmt.Sprintf("(%d ∀x)(%d  )(%d ∁)(%d )", tokenizers.Word, tokenizers.Whitespace, tokenizers.Symbol, tokenizers.Eof); got != want {
 		return "a generic tokenizer configured twice over U+2200 tokenizes \"∀x ∁\" as " + got
 	}
+	// the class of a character does not depend on which characters were classified before it: on tokenizers with
+	// overlapping non-Latin ranges, every ordered pair and triple of single characters (separated by blanks) comes back as
+	// what each character gives alone on a new tokenizer; and a used tokenizer answers like a new one
+	configs := []struct {
+		name string
+		mk   func() tokenizers.ITokenizer
+	}{
+		{"expression tokenizer with Greek configured as letters", func() tokenizers.ITokenizer {
+			t := ctok.NewExpressionTokenizer()
+			t.SetCharacterState(0x0370, 0x03ff, t.WordState())
+			t.WordState().SetWordChars(0x0370, 0x03ff, true)
+			return t
+		}},
+		{"generic tokenizer with the arrows block configured as symbols and Cyrillic as letters", func() tokenizers.ITokenizer {
+			t := generic.NewGenericTokenizer()
+			t.SetCharacterState(0x2190, 0x21ff, t.SymbolState())
+			t.SetCharacterState(0x0400, 0x04ff, t.WordState())
+			return t
+		}},
+		{"generic tokenizer with U+2200..U+22FF as symbols and U+2200 as a letter", func() tokenizers.ITokenizer {
+			t := generic.NewGenericTokenizer()
+			t.SetCharacterState(0x2200, 0x22ff, t.SymbolState())
+			t.SetCharacterState(0x2200, 0x2200, t.WordState())
+			return t
+		}},
+		{"generic tokenizer with Cyrillic as letters and U+0430..U+044F as symbols", func() tokenizers.ITokenizer {
+			t := generic.NewGenericTokenizer()
+			t.SetCharacterState(0x0400, 0x04ff, t.WordState())
+			t.SetCharacterState(0x0430, 0x044f, t.SymbolState())
+			return t
+		}},
+		{"expression tokenizer with U+2200..U+22FF as whitespace inside a symbol range", func() tokenizers.ITokenizer {
+			t := ctok.NewExpressionTokenizer()
+			t.SetCharacterState(0x2100, 0x23ff, t.SymbolState())
+			t.SetCharacterState(0x2200, 0x22ff, t.WhitespaceState())
+			t.WhitespaceState().SetWhitespaceChars(0x2200, 0x22ff, true)
+			return t
+		}},
+	}
+	alpha := []rune{'α', 'β', '≤', '→', 'ф', 'Ж', '日', '∀', '∁', 'é', 'x', '℃'}
+	strip := func(ts []*tokenizers.Token) string { // without whitespace tokens (a configured whitespace character merges with the blanks) and the end marker
+		var sb strings.Builder
+		for _, t := range ts {
+			if t.Type() != tokenizers.Eof && t.Type() != tokenizers.Whitespace {
+				fmt.Fprintf(&sb, "(%d %s)", t.Type(), t.Value())
+			}
+		}
+		return sb.String()
+	}
+	for _, cf := range configs {
+		alone := map[rune]string{}
+		for _, c := range alpha {
+			alone[c] = strip(cf.mk().TokenizeBuffer(string(c)))
+		}
+		for _, a := range alpha {
+			for _, b := range alpha {
+				for _, c := range append([]rune{0}, alpha...) {
+					text, want := string(a)+" "+string(b), alone[a]+alone[b]
+					if c != 0 {
+						text, want = text+" "+string(c), want+alone[c]
+					}
+					if got := strip(cf.mk().TokenizeBuffer(text)); got != want {
+						return fmt.Sprintf("%s: %q comes back as %s, the characters alone give %s", cf.name, text, got, want)
+					}
+				}
+			}
+		}
+		used := cf.mk()
+		for _, a := range alpha {
+			for _, b := range alpha {
+				for _, text := range []string{string(a) + string(b), string(a) + " " + string(b) + string(a), string(b)} {
+					if got, want := show(used.TokenizeBuffer(text)), show(cf.mk().TokenizeBuffer(text)); got != want {
+						return fmt.Sprintf("%s, used before: %q comes back as %s, a new tokenizer gives %s", cf.name, text, got, want)
+					}
+				}
+			}
+		}
+	}
 	return ""
 }
 
